@@ -27,6 +27,7 @@ type qmodel struct {
 	bound  orb.Bound
 	live   []*qitem
 	dead   []*qitem
+	probeN int
 	nextID int
 	log    []string
 	failed bool
@@ -171,7 +172,16 @@ func (m *qmodel) drop(it *qitem) {
 func (m *qmodel) removeByIdentity(it *qitem, isLive bool) {
 	m.log = append(m.log, fmt.Sprintf("remove-by-identity #%d %v (live=%v)", it.id, it.pt, isLive))
 	var got bool
-	pv, stack := h.Catch(func() { got = m.tree.Remove(it, func(p orb.Pointer) bool { return p == orb.Pointer(it) }) })
+	// the filter alone decides what matches; the first argument only says where to start looking: every third removal
+	// starts from another place (inside the tree's bound, on it, or outside it)
+	var probe orb.Pointer = it
+	if m.probeN++; m.probeN%3 == 0 {
+		b := m.bound
+		w, ht := b.Max[0]-b.Min[0], b.Max[1]-b.Min[1]
+		probe = &qitem{id: -2, pt: []orb.Point{b.Min, {b.Max[0] + w, b.Min[1] - ht}, {b.Min[0] + w/3, b.Min[1] + ht/7}, {b.Min[0] - 1, b.Max[1] + 1}}[(m.probeN/3)%4]}
+		m.log[len(m.log)-1] += fmt.Sprintf(" starting at %v", probe.Point())
+	}
+	pv, stack := h.Catch(func() { got = m.tree.Remove(probe, func(p orb.Pointer) bool { return p == orb.Pointer(it) }) })
 	m.c.Eval()
 	if pv != nil {
 		m.fail("Remove panicked", map[string]interface{}{"panic": sv(pv), "stack": stack})
